@@ -16,6 +16,7 @@ def shape : Ty → Ty
   | .garray n t => .garray n (shape t)
   | .seq _ _ t => .seq .vec 0 (shape t)
   | .box _ t => shape t
+  | .wrap t => shape t
   | .range t => .range (shape t)
   | .enum idxs ts => .enum idxs (shapeList ts)
   | t => t
@@ -47,6 +48,7 @@ def peel : Ty → Ty
   | .garray n t => .garray n (peel t)
   | .seq k s t => .seq k s (peel t)
   | .box s t => .box s (peel t)
+  | .wrap t => .wrap (peel t)
   | .range t => .range (peel t)
   | .enum idxs ts => .enum idxs (peelList ts)
   | t => t
@@ -76,6 +78,7 @@ def tyEq : Ty → Ty → Bool
   | .str, .str => true
   | .bytes, .bytes => true
   | .box s t, .box s' u => s == s' && tyEq t u
+  | .wrap t, .wrap u => tyEq t u
   | .duration, .duration => true
   | .range t, .range u => tyEq t u
   | .bitseq p m, .bitseq q m' => p == q && m == m'
